@@ -41,6 +41,9 @@ func exec(line string) zv.Out {
 		viol, tag := run(zv.NewRng(seed), "ptr")
 		return zv.Out{Go: "", Viol: viol, Tags: []string{typ, typ + ":" + tag}}
 	}
+	if strings.HasPrefix(typ, "m-") {
+		return execModel(typ, args)
+	}
 	switch typ {
 	case "ecpoint", "ecpoint-dec", "dhparams":
 		return execParams(typ, args)
@@ -241,6 +244,10 @@ func gen(g *zv.Gen) {
 	// ---- T2 + T3: key parameters and points on the abstract JSON tree -------------------------
 	genParams(g)
 
+	// ---- T2 + T3: the modelled structured types (OIDs, fingerprints, CT values, attribute values, other names,
+	// extensions, RSA keys and client parameters, ECDH parameters) with decode-only malformed streams ----------
+	genModel(g)
+
 	// ---- T3 only: structured types, random values incl. omitted optional members ---------------
 	var sn []string
 	for k := range structs {
@@ -276,5 +283,5 @@ func gen(g *zv.Gen) {
 
 func init() {
 	zv.Register(&zv.Prop{ID: "C33", Topic: "c33", Gen: gen, Exec: exec,
-		Rule: "every value of TLSVersion, CipherSuiteID, CurveID, json.TLSCurveID (65536 each), CompressionMethod, PointFormat (256 each), SignatureAndHash (both axes in full + 9 hash columns; thorough: all 65536 pairs), ClientAuthType -3..69 and the int64 bounds, KeyUsage 0..511 + 600 random ints, PublicKeyAlgorithm and SignatureAlgorithm -3..39: real MarshalJSON then real UnmarshalJSON, both compared with the Lean model; json.ECPoint (with/without Y, nil X) and json.DHParams (nil optional members) compared member by member with the model, ECPoint decode-only lines with absent/null members; decode-only lines with right/mismatched/unknown names, out-of-range values and unknown.N strings for every decoder; T3-only random structured values (DH/ECDH/RSA parameters, points with and without Y, general names, name constraints, IP subtrees with CIDR and non-CIDR masks, names, attribute values, extensions, other names, OIDs, fingerprints, CT DigitallySigned and SHA256Hash, key share); cc = EVERY type above (11 enumerated + 19 structured runners) in EVERY calling convention of encoding/json — json.Marshal(&v), (&p), (v), field of a struct passed by value / by pointer, *T field, struct nested in a struct by value / by pointer, map[string]T (by value / by pointer), map[string]*T, []T, []*T, [1]T by value / by pointer, []interface{}{v}, []interface{}{&v}, interface{} field, map[string]interface{} — decoded into the matching value and pointer targets (T, *T allocated by the decoder, container members), 4 fixed + 8 random values per (type, convention) (thorough: 400): the round trip must hold in each; addressable and non-addressable positions are tagged separately — a case is one distinct line"})
+		Rule: "every value of TLSVersion, CipherSuiteID, CurveID, json.TLSCurveID (65536 each), CompressionMethod, PointFormat (256 each), SignatureAndHash (both axes in full + 9 hash columns; thorough: all 65536 pairs), ClientAuthType -3..69 and the int64 bounds, KeyUsage 0..511 + 600 random ints, PublicKeyAlgorithm and SignatureAlgorithm -3..39: real MarshalJSON then real UnmarshalJSON, both compared with the Lean model; json.ECPoint (with/without Y, nil X) and json.DHParams (nil optional members) compared member by member with the model, ECPoint decode-only lines with absent/null members; decode-only lines with right/mismatched/unknown names, out-of-range values and unknown.N strings for every decoder; m-<type> = the MODELLED structured types (pkix.AuxOID, x509.CertificateFingerprint, ct.SHA256Hash, ct.DigitallySigned, pkix.AttributeTypeAndValue, OtherName, Extension, json.RSAPublicKey (nil key / nil modulus / nil exponent in every run), RSAClientParams, ECDHParams, tls.KeyShareExtension, x509.GeneralSubtreeIP with IPv4 addresses in 4- and 16-byte form (all 33 prefix masks, masks with one hole, masks whose hex digits are all decimal, random masks; decode-only IPv4 CIDR / hex-mask texts right and wrong)): 700 random values each (OIDs of 1..9 arcs over the whole int range, nil / empty / boundary-size byte strings around the base64 group sizes, 65535- and 65536-byte signatures, moduli of every size incl. 0, exponents negative / beyond 64 bits, every present/absent combination of ECDH members) through the real MarshalJSON + UnmarshalJSON by pointer, abstract JSON members and decode result compared with the Lean model, and m-<type>-dec decode-only lines (absent / null / wrong-kind members, malformed and non-canonical base64, hex, OID and number texts, wrong DigitallySigned / RSA lengths); T3-only random structured values (DH/ECDH/RSA parameters, points with and without Y, general names, name constraints, IP subtrees with CIDR and non-CIDR masks, names, attribute values, extensions, other names, OIDs, fingerprints, CT DigitallySigned and SHA256Hash, key share); cc = EVERY type above (11 enumerated + 19 structured runners) in EVERY calling convention of encoding/json — json.Marshal(&v), (&p), (v), field of a struct passed by value / by pointer, *T field, struct nested in a struct by value / by pointer, map[string]T (by value / by pointer), map[string]*T, []T, []*T, [1]T by value / by pointer, []interface{}{v}, []interface{}{&v}, interface{} field, map[string]interface{} — decoded into the matching value and pointer targets (T, *T allocated by the decoder, container members), 4 fixed + 8 random values per (type, convention) (thorough: 400): the round trip must hold in each; addressable and non-addressable positions are tagged separately — a case is one distinct line"})
 }
